@@ -466,12 +466,21 @@ package quickfix
 //@ spec onebyte(d []byte, c int) bool = len(d) == 1 && d[0] == c
 //@ func (s *session) doReject [C06]
 //@   ensures @target (s.store.#T == old(s.store.#T) && s.store.#R == old(s.store.#R)) || s.store.#R > old(s.store.#R)
+//@   ensures @nodelivery s.application.#n == old(s.application.#n)
 //@   requires sessfull(s) && msgok(msg) && rej != nil
-//@   atcall SetField @reply msgsafe(reply)
+//@   atcall SetField @maps reply != nil && mapsok(reply)
+//@   atcall SetField @hdr fmvals(reply.Header.FieldMap)
+//@   atcall SetField @body fmvals(reply.Body.FieldMap)
+//@   atcall SetField @trl fmvals(reply.Trailer.FieldMap)
+//@   atcall SetField @cmp reply.Header.compare != nil && reply.Body.compare != nil && reply.Trailer.compare != nil
 //@   atcall SetField @msg msgok(msg)
 //@   atcall SetField @sep msgsep(reply, msg)
 //@   atcall SetField @sess sessfull(s)
-//@   atcall OnEventf @reply msgsafe(reply)
+//@   atcall OnEventf @maps reply != nil && mapsok(reply)
+//@   atcall OnEventf @hdr fmvals(reply.Header.FieldMap)
+//@   atcall OnEventf @body fmvals(reply.Body.FieldMap)
+//@   atcall OnEventf @trl fmvals(reply.Trailer.FieldMap)
+//@   atcall OnEventf @cmp reply.Header.compare != nil && reply.Body.compare != nil && reply.Trailer.compare != nil
 //@   atcall OnEventf @msg msgok(msg)
 //@   atcall OnEventf @sep msgsep(reply, msg)
 //@   atcall OnEventf @sess sessfull(s)
@@ -524,3 +533,42 @@ package quickfix
 //@ func (s *session) logError [C06]
 //@   requires s != nil && s.log != nil && err != nil
 //@   pure
+
+// ---- the logged-on message handlers (in_session.go) --------------------------------------------------------------
+// a gap recovery is in progress (also while a test request is pending)
+//@ spec inrecovery(st sessionState) bool = st is resendState || (st is pendingTimeout && unbox(st, pendingTimeout).sessionState is resendState)
+// what every handler keeps: the session stays well-formed, its state field is not touched, and the expected inbound
+// number only moves forward unless the store was reset
+//@ spec sesskept(s *session) bool = sessfull(s)
+//@ func handleStateError [C06]
+//@   requires s != nil && s.log != nil && err != nil
+//@   ensures result is latentState
+//@   pure
+
+// processReject: reaction to a message that failed verification (C04, C06)
+//@ func (state inSession) processReject [C01,C04,C06]
+//@   requires @sess sessfull(session)
+//@   requires @bound session.store.#T < MaxInt64
+//@   requires @msg msgok(msg) && rej != nil
+//@   atcall doTargetTooHigh @norecovery !inrecovery(session.State)
+//@   ensures @next result != nil && stok(result)
+//@   ensures @sess sessfull(session) && session.State == old(session.State)
+//@   ensures @nodelivery session.application.#n == old(session.application.#n)
+//@   ensures @mono (session.store.#T >= old(session.store.#T) && session.store.#R == old(session.store.#R)) || session.store.#R > old(session.store.#R)
+//@   ensures @high rej is targetTooHigh && session.store.#R == old(session.store.#R) ==> session.store.#T == old(session.store.#T) && (result is resendState || result is latentState)
+//@   ensures @stash0 rej is targetTooHigh && result is resendState ==> unbox(result, resendState).messageStash != nil
+//@   ensures @stash1 rej is targetTooHigh && result is resendState ==> has(unbox(result, resendState).messageStash, unbox(rej, targetTooHigh).ReceivedTarget)
+//@   ensures @stash rej is targetTooHigh && result is resendState ==> has(unbox(result, resendState).messageStash, unbox(rej, targetTooHigh).ReceivedTarget) && unbox(result, resendState).messageStash[unbox(rej, targetTooHigh).ReceivedTarget] == msg
+//@   ensures @low rej is targetTooLow && session.store.#R == old(session.store.#R) ==> session.store.#T == old(session.store.#T)
+//@   ensures @beginstring rej is incorrectBeginString && session.store.#R == old(session.store.#R) ==> session.store.#T == old(session.store.#T) && (result is logoutState || result is latentState)
+//@   ensures @identity !(rej is targetTooHigh) && !(rej is targetTooLow) && !(rej is incorrectBeginString) && (rejreasonof(rej) == 9 || rejreasonof(rej) == 10) && session.store.#R == old(session.store.#R) ==> session.store.#T == old(session.store.#T) && (result is logoutState || result is latentState)
+//@   ensures @consumed !(rej is targetTooHigh) && !(rej is targetTooLow) && !(rej is incorrectBeginString) && rejreasonof(rej) != 9 && rejreasonof(rej) != 10 && result is inSession && session.store.#R == old(session.store.#R) ==> session.store.#T == wrap64(old(session.store.#T) + 1)
+
+//@ func (state inSession) doTargetTooLow [C01,C06]
+//@   requires @sess sessfull(session)
+//@   requires @msg msgok(msg)
+//@   ensures @next result != nil && stok(result)
+//@   ensures @sess sessfull(session) && session.State == old(session.State)
+//@   ensures @nodelivery session.application.#n == old(session.application.#n)
+//@   ensures @target (session.store.#T == old(session.store.#T) && session.store.#R == old(session.store.#R)) || session.store.#R > old(session.store.#R)
+//@   ensures @nodup (!fhas(msg.Header.FieldMap, 43)) ==> result is logoutState || result is latentState
